@@ -127,7 +127,7 @@ pub fn run(run: &Run) {
          allowed result is Ok, BadCodepoint{cp, code-point index, value} of the FIRST offender, MissingContextRule for an unregistered contextual value, \
          and Undefined only where the reference rule says a neighbour lies outside the label; standard classes never report Missing/NotApplicable. \
          Non-trivial: >= 2 code points and (a multi-byte code point before the first offender, or a contextual code point in the label); distinct = \
-         distinct (class,label). Plus the deterministic long-input / call-order batteries of DESIGN.md 8.1 that apply to this property (alignment sweeps 0..72 and around 128..65536 bytes, runs and exact counts, sandwiches and multi-megabyte inputs, exhaustive pair sets, plane/byte aliases, hash-colliding pairs back to back, owned arguments with spare capacity); each battery is a finite list enumerated completely and appears as its own section in 'sections'.",
+         distinct (class,label). Plus the deterministic long-input / call-order batteries of DESIGN.md 8.1 and 8.2 that apply to this property (extreme scale, mark neighbours, distinct runs with repeats, environment children, thread lifetime, concurrent distinct inputs; alignment sweeps 0..72 and around 128..65536 bytes, runs and exact counts, sandwiches and multi-megabyte inputs, exhaustive pair sets, plane/byte aliases, hash-colliding pairs back to back, owned arguments with spare capacity); each battery is a finite list enumerated completely and appears as its own section in 'sections'.",
     );
     let maxlen = run.pick(3u32, 4u32);
     let mut total = 0u64;
